@@ -308,7 +308,7 @@ Section SafeR.
       split.
       { apply Rel2_slot with (a := parr p) (i := pidx p) (s := mkSlot pp 1);
           [reflexivity|rewrite E; discriminate|rewrite E; discriminate|].
-        intros _ h. apply (conv_preserves hs (parr p) (pidx p) E). }
+        intros _ hh. apply (@conv_preserves hs g (parr p) (pidx p) pp E). }
       rewrite view_set_same. rewrite Hv. generalize (narr g). intros n.
       (* the store into the pending array node *)
       apply safe_act_intro. clear g A tr HI E HK Hv. intros g A tr HI Hv. cbn [a_st fst snd].
@@ -346,9 +346,9 @@ Section SafeR.
       { intros u Hu. unfold view. cbn. destruct (Nat.eqb_spec u t); [congruence|reflexivity]. }
       split.
       { eapply Rel2_slot; [reflexivity|rewrite Hs; discriminate|reflexivity|].
-        intros _ h. apply (link_preserves Hh Ha HI Hph). }
+        intros _ hh. apply (@link_preserves hbits abits hs g A tr t _ _ _ _ HI Hph). }
       unfold view at 1. cbn [views set_view set_pfx]. rewrite Nat.eqb_refl. rewrite Hv. cbn [set_ph ph ka ko kpre kit kkey kid kidk].
-      cbn. rewrite Nat.eqb_refl. cbn. split; [repeat split; auto|]. exact HID.
+      apply safe_ret. cbn. rewrite ?Nat.eqb_refl. cbn. split; [repeat split; auto|]. exact HID.
     - exists A. split; [eapply Inv_trace; exact HI|]. split; [apply frame_refl|]. split; [apply Rel2_refl|]. rewrite Hv. apply safe_ret.
       split; [repeat split; auto|exact HID].
   Qed.
@@ -543,3 +543,20 @@ Section SafeR.
     cbn [Nat.add]. eapply ConcRel.safeR_weaken; [|apply safe_thread; reflexivity]. intros; exact I.
   Qed.
 End SafeR.
+
+(** ** the slot life cycle, for every step of every execution: data -> converting -> array node, an array-node slot is final,
+       and no step that changes flag bits changes the set of hashes present *)
+Theorem feldman_step_rel (hbits abits W : nat) (hs : list N) : 0 < hbits -> 0 < abits ->
+  forall fuel ths c t c',
+    Conc.reach (init_cfg hbits abits W hs fuel ths) c -> Conc.step_cfg c t = Some c' ->
+    Rel2 hs (Conc.shared c) (Conc.shared c').
+Proof.
+  intros Hh Ha fuel ths c t c' Hr Hs.
+  pose (SR := fun (_ : nat) (g g' : G) (_ : list (nat * ev)) (_ : list ev) (_ _ : unit) => Rel2 hs g g').
+  assert (HSR : forall t g g' tr es, Rel2 hs g g' -> SR t g g' tr es tt tt) by (intros; assumption).
+  assert (H0 : ConcRel.cfg_okR view (FeldmanStepInv.Inv hbits abits hs) SR (init_cfg hbits abits W hs fuel ths)).
+  { exists A0, (fun _ => tt). apply (@init_okR hbits abits W hs Hh Ha unit SR tt HSR fuel ths). }
+  destruct (@ConcRel.reach_step_SR G V ev Aux L unit view (FeldmanStepInv.Inv hbits abits hs) SR _ c t c' H0 Hr Hs) as (tr & es & w1 & w2 & H).
+  exact H.
+Qed.
+Print Assumptions feldman_step_rel.
